@@ -4,14 +4,14 @@ HE = "nucs/heuristics/"
 for name, k in (("min_value", 1), ("max_value", 1), ("split_low", 1)):
     contract(f"{HE}{name}_dom_heuristic.py::{name}_dom_heuristic", types=DH_TYPES, props=["C09", "C02", "C16", "C19"],
              requires=dom_heuristic_requires(k), ensures=dom_heuristic_ensures(k), modifies=DH_MODIFIES, tags=DH_TAGS,
-             arities=[{"H": 3, "D": 2, "P": 1}])
+             arities=[{"H": 3, "D": 2, "P": 1, "_pin": {"stacks_top": [0]}}, {"H": 3, "D": 2, "P": 1, "_pin": {"stacks_top": [1]}}])
 
 contract(HE + "value_dom_heuristic.py::value_dom_heuristic", types=dict(DH_TYPES, value="int"), props=["C09", "C02", "C16", "C19"],
          requires=dom_heuristic_requires(2) + ["shr_domains_stack[stacks_top[0], dom_idx, MIN] <= value and value <= shr_domains_stack[stacks_top[0], dom_idx, MAX]"],
-         ensures=dom_heuristic_ensures(2), modifies=DH_MODIFIES, tags=DH_TAGS, arities=[{"H": 4, "D": 2, "P": 1}])
+         ensures=dom_heuristic_ensures(2), modifies=DH_MODIFIES, tags=DH_TAGS, arities=[{"H": 4, "D": 2, "P": 1, "_pin": {"stacks_top": [0]}}, {"H": 4, "D": 2, "P": 1, "_pin": {"stacks_top": [1]}}])
 
 contract(HE + "mid_value_dom_heuristic.py::mid_value_dom_heuristic", types=DH_TYPES, props=["C09", "C02", "C16", "C19"],
-         requires=dom_heuristic_requires(2), ensures=dom_heuristic_ensures(2), modifies=DH_MODIFIES, tags=DH_TAGS, arities=[{"H": 4, "D": 2, "P": 1}])
+         requires=dom_heuristic_requires(2), ensures=dom_heuristic_ensures(2), modifies=DH_MODIFIES, tags=DH_TAGS, arities=[{"H": 4, "D": 2, "P": 1, "_pin": {"stacks_top": [0]}}, {"H": 4, "D": 2, "P": 1, "_pin": {"stacks_top": [1]}}])
 
 interface("DomHeuristic", types=DH_TYPES, requires=dom_heuristic_requires(2), ensures=dom_heuristic_ensures(2), modifies=DH_MODIFIES)
 
@@ -56,4 +56,17 @@ contract(HE + "min_cost_dom_heuristic.py::min_cost_dom_heuristic", types=dict(DH
          ensures=dom_heuristic_ensures(2), modifies=DH_MODIFIES, tags=DH_TAGS,
          loops={1: dict(index="j", fingerprint="for range(shr_domain[MIN], shr_domain[MAX] + 1)", invariant=[
              ("C09.best", "(j == 0 and best_value == -1 and best_cost == 9223372036854775807) or (j > 0 and shr_domain[MIN] <= best_value and best_value < shr_domain[MIN] + j and best_cost < 9223372036854775807)")])},
-         arities=[{"H": 4, "D": 2, "P": 1, "D2": 2, "W": 3}])
+         arities=[{"H": 4, "D": 2, "P": 1, "D2": 2, "W": 3, "_pin": {"stacks_top": [0]}}, {"H": 4, "D": 2, "P": 1, "D2": 2, "W": 3, "_pin": {"stacks_top": [1]}}])
+
+# the two heuristics shaving probes with: the branch taken is the single bound value (C10)
+PROBE = {"min_value": "MIN", "max_value": "MAX"}
+for name, b in PROBE.items():
+    c = REG.contracts[f"{HE}{name}_dom_heuristic.py::{name}_dom_heuristic"]
+    o = "MAX" if b == "MIN" else "MIN"
+    c.ensures = c.ensures + [
+        ("C10.probe", f"stacks_top[0] == old(stacks_top)[0] + 1 and shr_domains_stack[stacks_top[0], dom_idx, MIN] == old(shr_domains_stack)[old(stacks_top)[0], dom_idx, {b}] and shr_domains_stack[stacks_top[0], dom_idx, MAX] == old(shr_domains_stack)[old(stacks_top)[0], dom_idx, {b}]"),
+        ("C10.alternative", f"shr_domains_stack[old(stacks_top)[0], dom_idx, {b}] == old(shr_domains_stack)[old(stacks_top)[0], dom_idx, {b}] {'+ 1' if b == 'MIN' else '- 1'} and shr_domains_stack[old(stacks_top)[0], dom_idx, {o}] == old(shr_domains_stack)[old(stacks_top)[0], dom_idx, {o}]"),
+        ("C10.above", "forall(l, stacks_top[0] + 1, H, lvl_same(shr_domains_stack, old(shr_domains_stack), l, D))"),
+    ]
+    c.tags = dict(c.tags, C10=["C10"])
+    c.props = c.props + ["C10"]
